@@ -50,7 +50,7 @@ var urlWitnesses = map[string][]string{
 	"https":  {"https://e.x/"},
 	"mailto": {"mailto:a@example.com"},
 	"ftp":    {"ftp://e.x/f"},
-	"":       {"/rel/path", "#frag", "page.html"},
+	"":       {"/rel/path", "#frag", "page.html", "/wiki/Help:Contents"},
 }
 
 // attrWitnesses returns values for attribute key on el that the view's rules
